@@ -58,7 +58,7 @@ func sigValid(pk [32]byte, h types.Hash256, sig types.Signature) bool {
 		return v
 	}
 	v := ed25519.Verify(ed25519.PublicKey(pk[:]), h[:], sig[:])
-	if len(sigCache) > 2_000_000 {
+	if len(sigCache) > 200_000 {
 		sigCache = map[sigKey]bool{}
 	}
 	sigCache[k] = v
